@@ -403,6 +403,13 @@ class Logix( Message_Router ):
                     attribute.parser.tag_type, (attribute.parser.tag_type,) ), \
                     "Tag type %d in request doesn't fit within Attribute type %d" % ( 
                         data[context].type, attribute.parser.tag_type )
+                # The compatible types include unsigned types as wide as the Attribute's signed type
+                # (eg. UINT into INT).  Refuse values the Attribute's own type cannot represent
+                # (eg. UINT 65535 into INT); once stored, every later read of the tag would fail.
+                if ( data[context].type != attribute.parser.tag_type
+                     and hasattr( attribute.parser, 'struct_format' )):
+                    for v in data[context].data:
+                        attribute.parser.produce( v )
             else:
                 raise AssertionError( "Unhandled Service Reply" )
 
